@@ -41,17 +41,33 @@ def bitvec(bits) -> bytes:
     return bytes(out)
 
 
-def _encode(coder: bytes, data: bytes):
-    """-> (packed bytes, coder properties or None)"""
+def lzma2_dict_sizes(max_prop: int = 30) -> list[int]:
+    """The dictionary sizes an LZMA2 property byte can express: p -> (2 | (p & 1)) << (p // 2 + 11), i.e. 4 KiB, 6 KiB, 8 KiB, 12 KiB, ...
+    (even p: 2^n; odd p: 3 * 2^n - what 7-Zip writes for -md=3m / 6m / 96m and when it shrinks the dictionary to the input size)."""
+    return [(2 | (p & 1)) << (p // 2 + 11) for p in range(max_prop + 1)]
+
+
+def lzma2_prop(dict_size: int) -> int:
+    """Property byte of the smallest expressible dictionary >= dict_size."""
+    for p, d in enumerate(lzma2_dict_sizes(40)):
+        if d >= dict_size:
+            return p
+    raise ValueError(dict_size)
+
+
+def _encode(coder: bytes, data: bytes, dict_size: int | None = None):
+    """-> (packed bytes, coder properties or None).  ``dict_size``: dictionary the encoder really uses *and* declares (LZMA: any 32-bit
+    value; LZMA2: rounded up to the next expressible size); default 64 KiB."""
     if coder == COPY:
         return data, None
     if coder == LZMA:
-        dict_size = 1 << 16
+        dict_size = dict_size or 1 << 16
         packed = lzma.compress(data, format=lzma.FORMAT_RAW, filters=[{"id": lzma.FILTER_LZMA1, "dict_size": dict_size, "lc": 3, "lp": 0, "pb": 2}])
         return packed, bytes([0x5D]) + struct.pack("<I", dict_size)
     if coder == LZMA2:
-        packed = lzma.compress(data, format=lzma.FORMAT_RAW, filters=[{"id": lzma.FILTER_LZMA2, "dict_size": 1 << 16}])
-        return packed, bytes([8])
+        prop = lzma2_prop(dict_size or 1 << 16)
+        packed = lzma.compress(data, format=lzma.FORMAT_RAW, filters=[{"id": lzma.FILTER_LZMA2, "dict_size": lzma2_dict_sizes(40)[prop]}])
+        return packed, bytes([prop])
     if coder == AES:
         return data, bytes([0x13, 0x00])    # declared only: content is not really encrypted
     raise ValueError(coder)
@@ -70,7 +86,8 @@ def _streams_info(pack_pos: int, folders: list[dict], with_crc: bool, substreams
     out = bytearray()
     out += b"\x06" + num(pack_pos) + num(len(folders)) + b"\x09" + b"".join(num(len(f["packed"])) for f in folders) + b"\x00"
     out += b"\x07" + b"\x0b" + num(len(folders)) + b"\x00" + b"".join(_folder_record(f["coder"], f["props"]) for f in folders)
-    out += b"\x0c" + b"".join(num(sum(len(x) for x in f["files"])) for f in folders)
+    sizes_of = lambda f: f.get("sizes") or [len(x) for x in f["files"]]     # noqa: E731  (declared sizes may be forged)
+    out += b"\x0c" + b"".join(num(sum(sizes_of(f))) for f in folders)
     if with_crc:
         out += b"\x0a\x01" + b"".join(struct.pack("<I", zlib.crc32(b"".join(f["files"])) & 0xFFFFFFFF) for f in folders)
     out += b"\x00"
@@ -80,7 +97,7 @@ def _streams_info(pack_pos: int, folders: list[dict], with_crc: bool, substreams
     out += b"\x08"
     if any(len(f["files"]) != 1 for f in folders):
         out += b"\x0d" + b"".join(num(len(f["files"])) for f in folders)
-        sizes = b"".join(num(len(x)) for f in folders for x in f["files"][:-1])
+        sizes = b"".join(num(n) for f in folders for n in sizes_of(f)[:-1])
         if sizes:
             out += b"\x09" + sizes
     if with_crc:
@@ -92,8 +109,15 @@ def _streams_info(pack_pos: int, folders: list[dict], with_crc: bool, substreams
 
 
 def make_7z(entries: list[dict], *, coder: bytes = LZMA, layout: str = "solid", with_crc: bool = True, with_attrs: bool = True,
-            encoded_header: bool = False, mixed_coders: list[bytes] | None = None, header_coder: bytes = LZMA) -> bytes:
-    """entries: [{"name": str, "data": bytes | None (directory), "empty_stream": optional override, "phantom": bool, "attr": optional int}]
+            encoded_header: bool = False, mixed_coders: list[bytes] | None = None, header_coder: bytes = LZMA,
+            dict_size: int | None = None, with_substreams: bool = True) -> bytes:
+    """entries: [{"name": str, "data": bytes | None (directory), "empty_stream": optional override, "phantom": bool, "attr": optional int,
+                 "declared_size": optional int}]
+
+    ``declared_size``: the size the header lists for the entry (folder unpack size / sub-stream size) instead of the real length of its
+    data (hostile: the coder produces more, or less, than the listing says; pass with_crc=False, the digests are those of the real data).
+    ``with_substreams=False``: no SubStreamsInfo section for the main streams (legal only with one file per folder; hostile otherwise).
+    ``dict_size``: LZMA / LZMA2 dictionary size used and declared by every data folder (see _encode).
 
     ``phantom``: the entry is *not* flagged as empty stream although no data stream exists for it.
     ``attr``: Windows attribute word written for the entry instead of the default (0x10 for directories, 0x20 for files), e.g.
@@ -114,12 +138,13 @@ def make_7z(entries: list[dict], *, coder: bytes = LZMA, layout: str = "solid", 
     for gi, g in enumerate(groups):
         c = mixed_coders[gi % len(mixed_coders)] if mixed_coders else coder
         raw = b"".join(e["data"] for e in g)
-        packed, props = _encode(c, raw)
-        folders.append({"coder": c, "props": props, "packed": packed, "files": [e["data"] for e in g]})
+        packed, props = _encode(c, raw, dict_size)
+        folders.append({"coder": c, "props": props, "packed": packed, "files": [e["data"] for e in g],
+                        "sizes": [e["declared_size"] if e.get("declared_size") is not None else len(e["data"]) for e in g]})
     packed_all = b"".join(f["packed"] for f in folders)
     header = bytearray(b"\x01")
     if folders:
-        header += b"\x04" + _streams_info(0, folders, with_crc) + b"\x00"
+        header += b"\x04" + _streams_info(0, folders, with_crc, substreams=with_substreams) + b"\x00"
     # FilesInfo
     n = len(entries)
     fi = bytearray(b"\x05" + num(n))
